@@ -84,7 +84,29 @@ def gen_case(g):
                           for _ in range(rng.randint(5, 7))]
             rng.shuffle(dvars)
         poly["highorder"] = True
-    case = {"fn": fn, "poly": poly, "vars": dvars, "options": rng.choice(SETTINGS)}
+    options = rng.choice(SETTINGS)
+    if fn == "derivative" and not poly.get("highorder") and rng.random() < 0.1:
+        # indeterminates stored in non-canonical order (q1 before q0), one of them only in a
+        # linear term: the first differentiation by the other one makes it unused, and under
+        # retain_names=False the intermediate result has other (re-sorted) names than the input
+        # when the next variable of the same call is looked up (seed C06-r13-1)
+        snames = rng.choice([["q1", "q0"], ["q2", "q0"], ["q2", "q1"], ["q2", "q1", "q0"]])
+        shape = rng.choice([(), (2,), (2, 2)])
+        width = len(snames)
+        rows = [[1] + [0] * (width - 1), [0] * (width - 1) + [rng.randint(2, 4)]]
+        if rng.random() < 0.5:
+            rows.append([0] * width)
+        skind = rng.choice(["int", "float"])
+        coefs = [G.nested_map(lambda v: rng.choice([1, 2, -1, 3]),
+                              g.array_data(shape, "int", zero_prob=0.0)) for _ in rows]
+        poly = {"k": "poly", "names": snames, "exps": rows, "coefs": G.nested_map(G.jnum, coefs),
+                "kind": skind, "shape": list(shape), "via": "attrs"}
+        dvars = [{"form": rng.choice(["name", "poly", "variable", "indeterminant"]),
+                  "name": snames[-1], "index": width - 1} for _ in range(rng.choice([2, 2, 3]))]
+        if rng.random() < 0.3:
+            dvars.append({"form": "name", "name": snames[0], "index": 0})
+        options = dict(options, retain_names=rng.random() < 0.25)
+    case = {"fn": fn, "poly": poly, "vars": dvars, "options": options}
     if fn == "rules":
         case["other"] = g.poly(shape=g.compatible_shape(tuple(poly["shape"])), names=names,
                                kind=poly["kind"], maxexp=2, allow_views=False)
